@@ -1,60 +1,1325 @@
+// C22: InfluxQL SELECT results match the language semantics.
+//
+// Bounded-exhaustive enumeration of a TEMPLATE GRAMMAR of SELECT statements (complete product of the slots, no sampling)
+// over a fixed set of small multi-series / two-shard datasets, executed through the real query.Executor →
+// coordinator.StatementExecutor → LocalShardMapper → tsdb.Shard / tsm1 iterators → query.Emitter (fixture `mini`), and
+// compared with an independent reference evaluator written in this file from the InfluxQL documentation
+// (filter → group (tags) → bucket (GROUP BY time) → aggregate → fill → order → LIMIT/OFFSET per series → SLIMIT/SOFFSET).
+// The evaluator never calls repo code.
+//
+// Where the InfluxQL documentation is silent the oracle accepts every reasonable answer (see Assumptions in TestCheck):
+// order of rows with equal time stamps in a merged (not grouped by tag) raw result, which of several equal-time points
+// first()/last() pick, which of several equal-valued points min()/max() report the time of, the direction of
+// fill(previous) under ORDER BY time DESC, rounding of fill(linear) on integers, the order of series under DESC, and the
+// set of series SLIMIT/SOFFSET count over (all series of the measurement that match the tag predicate, or only those with
+// rows).
 package c22
 
 import (
+	"encoding/json"
 	"fmt"
-	"os"
+	"math"
+	"sort"
 	"strings"
 	"testing"
 	"time"
 
 	"verif/h/mini"
+	"verif/h/vlib"
 )
 
-const M = int64(time.Minute)
+// ---------------------------------------------------------------------------------------------------------
+// datasets
 
-func TestProbe(t *testing.T) {
-	f, err := mini.Open(mini.Options{})
+const (
+	minute = int64(time.Minute)
+	B      = mini.Base // 2000-01-01T00:00:00Z; shard groups [B,B+60m) and [B+60m,B+120m)
+)
+
+// P is one written point of measurement "m": tag h, time B+Min minutes, fields v and/or w (nil = absent).
+type P struct {
+	H   string
+	Min int64
+	V   any
+	W   any
+}
+
+// Dataset: Layout is cache | tsm | mixed (even-indexed points snapshotted to TSM, odd in cache) | tsm2 (two TSM files) |
+// overwrite (old values in TSM, final values of even-indexed points in a second TSM file, of odd-indexed ones in the cache).
+type Dataset struct {
+	Name   string
+	Layout string
+	Pts    []P
+}
+
+func f(x float64) any { return x }
+func i(x int64) any   { return x }
+
+var datasets = []Dataset{
+	// D0: two dense float series with IDENTICAL time stamps in both shards; w (integer) on every other point of h=a.
+	{Name: "D0-dense-float-dup-times", Layout: "cache", Pts: func() []P {
+		var out []P
+		for k := int64(0); k < 12; k++ {
+			p := P{H: "a", Min: 10 * k, V: f(0.5*float64(k) - 1)}
+			if k%2 == 0 {
+				p.W = i(k * 10)
+			}
+			out = append(out, p, P{H: "b", Min: 10 * k, V: f(float64(6 - k))})
+		}
+		return out
+	}()},
+	// D1: integer v with gaps and off-grid time stamps, float w on a few points, one point that has only w.
+	{Name: "D1-gaps-int", Layout: "tsm", Pts: []P{
+		{"a", 0, i(5), nil}, {"a", 13, i(1), f(1.5)}, {"a", 27, nil, f(3.5)}, {"a", 40, i(7), nil}, {"a", 59, i(2), nil},
+		{"a", 75, i(0), f(2.5)}, {"a", 100, i(9), nil},
+		{"b", 13, i(3), nil}, {"b", 20, i(8), nil}, {"b", 60, i(1), nil}, {"b", 75, i(4), nil}, {"b", 119, i(6), nil},
+	}},
+	// D2: three float series; h=a lives only in the first shard, h=b only in the second, h=c in both.
+	{Name: "D2-three-series-split-shards", Layout: "mixed", Pts: []P{
+		{"a", 0, f(2.5), nil}, {"a", 20, f(0.5), nil}, {"a", 30, f(4), nil},
+		{"b", 70, f(1), nil}, {"b", 80, f(3.5), nil}, {"b", 100, f(7), nil},
+		{"c", 10, f(9), nil}, {"c", 50, f(-2), i(7)}, {"c", 60, f(1.5), nil}, {"c", 110, f(6), nil},
+	}},
+	// D3: integer v, several points per bucket, equal values inside and across series, equal time stamps across series.
+	{Name: "D3-ties-int", Layout: "tsm2", Pts: []P{
+		{"a", 0, i(3), nil}, {"a", 5, i(1), nil}, {"a", 10, i(3), nil}, {"a", 25, i(2), nil}, {"a", 40, i(2), nil}, {"a", 45, i(5), nil},
+		{"a", 60, i(5), nil}, {"a", 65, i(1), nil}, {"a", 90, i(0), nil}, {"a", 95, i(4), nil}, {"a", 115, i(4), nil},
+		{"b", 0, i(3), nil}, {"b", 5, i(3), nil}, {"b", 30, i(1), nil}, {"b", 45, i(5), nil}, {"b", 60, i(2), nil}, {"b", 90, i(4), nil}, {"b", 95, i(0), nil},
+	}},
+	// D4: float v at off-grid times; every point is first written with an OLD value (+1000) and snapshotted, then
+	// overwritten with its final value (even-indexed points in a second TSM file, odd-indexed ones in the cache).
+	{Name: "D4-overwritten-float", Layout: "overwrite", Pts: []P{
+		{"a", 3, f(4.25), nil}, {"a", 17, f(0.75), i(3)}, {"a", 22, f(2), nil}, {"a", 38, f(-1.5), nil}, {"a", 51, f(6), i(8)},
+		{"a", 66, f(1), nil}, {"a", 79, f(3.25), nil}, {"a", 84, f(8.5), i(1)}, {"a", 97, f(0.5), nil}, {"a", 118, f(5), nil},
+		{"b", 17, f(7.5), nil}, {"b", 29, f(1.25), nil}, {"b", 51, f(0.25), nil}, {"b", 60, f(9), nil}, {"b", 84, f(2.75), nil}, {"b", 111, f(-3), nil},
+	}},
+}
+
+func (d Dataset) intV() bool {
+	for _, p := range d.Pts {
+		if p.V != nil {
+			_, ok := p.V.(int64)
+			return ok
+		}
+	}
+	return false
+}
+
+func load(ds Dataset) (*mini.Fixture, mini.Bucket, error) {
+	fx, err := mini.Open(mini.Options{})
 	if err != nil {
-		t.Fatal(err)
+		return nil, mini.Bucket{}, err
 	}
-	defer f.Close()
-	b, _ := f.CreateBucket("db0", 0)
-	var pts []mini.Point
-	for k := 0; k < 12; k++ {
-		if k%3 != 2 {
-			pts = append(pts, mini.Point{M: "m", Tags: mini.T("h", "a"), Fields: map[string]any{"v": float64(k), "w": int64(k * 10)}, T: mini.Base + int64(k)*10*M})
+	b, err := fx.CreateBucket("db0", 0)
+	if err != nil {
+		fx.Close()
+		return nil, b, err
+	}
+	bump := func(v any, old bool) any {
+		if !old {
+			return v
 		}
-		if k%2 == 0 {
-			pts = append(pts, mini.Point{M: "m", Tags: mini.T("h", "b"), Fields: map[string]any{"v": float64(100 + k)}, T: mini.Base + int64(k)*10*M})
+		switch x := v.(type) {
+		case float64:
+			return x + 1000
+		case int64:
+			return x + 1000
+		}
+		return v
+	}
+	mkv := func(sel func(k int) bool, old bool) []mini.Point {
+		var out []mini.Point
+		for k, p := range ds.Pts {
+			if !sel(k) {
+				continue
+			}
+			fields := map[string]any{}
+			if p.V != nil {
+				fields["v"] = bump(p.V, old)
+			}
+			if p.W != nil {
+				fields["w"] = bump(p.W, old)
+			}
+			out = append(out, mini.Point{M: "m", Tags: mini.T("h", p.H), Fields: fields, T: B + p.Min*minute})
+		}
+		return out
+	}
+	mk := func(sel func(k int) bool) []mini.Point { return mkv(sel, false) }
+	type step struct {
+		pts  []mini.Point
+		snap bool
+	}
+	all := func(int) bool { return true }
+	even := func(k int) bool { return k%2 == 0 }
+	odd := func(k int) bool { return k%2 == 1 }
+	var steps []step
+	switch ds.Layout {
+	case "cache":
+		steps = []step{{mk(all), false}}
+	case "tsm":
+		steps = []step{{mk(all), true}}
+	case "mixed":
+		steps = []step{{mk(even), true}, {mk(odd), false}}
+	case "tsm2":
+		steps = []step{{mk(even), true}, {mk(odd), true}}
+	case "overwrite":
+		steps = []step{{mkv(all, true), true}, {mk(even), true}, {mk(odd), false}}
+	default:
+		fx.Close()
+		return nil, b, fmt.Errorf("unknown layout %q", ds.Layout)
+	}
+	for _, st := range steps {
+		if err := fx.Write(b, st.pts); err != nil {
+			fx.Close()
+			return nil, b, fmt.Errorf("write: %w", err)
+		}
+		if st.snap {
+			if err := fx.SnapshotAll(); err != nil {
+				fx.Close()
+				return nil, b, fmt.Errorf("snapshot: %w", err)
+			}
 		}
 	}
-	if err := f.Write(b, pts); err != nil {
-		t.Fatal(err)
+	return fx, b, nil
+}
+
+// ---------------------------------------------------------------------------------------------------------
+// the template grammar
+
+// Q is one statement of the grammar (every slot is an index/alternative).
+type Q struct {
+	Proj    string `json:"proj"`  // v | vw | count | sum | mean | min | max | first | last
+	TR      int    `json:"time"`  // index into timeRanges
+	Tag     int    `json:"tag"`   // 0 none, 1 h='a', 2 h!='a'
+	Field   bool   `json:"field"` // v > 1
+	GB      int    `json:"group"` // 0 none, 1 time(20m), 2 time(30m,10m), 3 h, 4 time(20m),h
+	Fill    string `json:"fill"`  // "" (clause absent) | null | none | 0 | previous | linear
+	Desc    bool   `json:"desc"`
+	Limit   int    `json:"limit"`
+	Offset  int    `json:"offset"`
+	SLimit  int    `json:"slimit"`
+	SOffset int    `json:"soffset"`
+}
+
+// timeRange: inclusive nanosecond bounds relative to B; has=false: no bound. Text is built from the same numbers.
+type timeRange struct {
+	name           string
+	hasLo, hasHi   bool
+	loMin, hiMin   int64 // minutes
+	loExcl, hiIncl bool  // `time > lo` instead of `>=`; `time <= hi` instead of `<`
+}
+
+// index 3 differs for interval and non-interval statements (an interval statement without an upper bound would end at
+// now(), one without a lower bound has no documented first bucket).
+var timeRanges = []timeRange{
+	{name: "[0m,120m)", hasLo: true, hasHi: true, loMin: 0, hiMin: 120},
+	{name: "[15m,80m]", hasLo: true, hasHi: true, loMin: 15, hiMin: 80, hiIncl: true},
+	{name: "(20m,70m)", hasLo: true, hasHi: true, loMin: 20, hiMin: 70, loExcl: true},
+	{name: "unbounded | [-30m,150m)", hasLo: true, hasHi: true, loMin: -30, hiMin: 150},
+	{name: "[60m,120m)", hasLo: true, hasHi: true, loMin: 60, hiMin: 120},
+	{name: "[25m,35m)", hasLo: true, hasHi: true, loMin: 25, hiMin: 35},
+}
+
+func (q Q) interval() (dur, off int64) {
+	switch q.GB {
+	case 1, 4:
+		return 20 * minute, 0
+	case 2:
+		return 30 * minute, 10 * minute
 	}
-	qs := strings.Split(os.Getenv("Q"), ";")
-	for _, q := range qs {
-		q = strings.TrimSpace(q)
-		if q == "" {
-			continue
+	return 0, 0
+}
+
+func (q Q) byTag() bool { return q.GB == 3 || q.GB == 4 }
+
+func (q Q) isAgg() bool { return q.Proj != "v" && q.Proj != "vw" }
+
+func (q Q) isSelector() bool {
+	switch q.Proj {
+	case "min", "max", "first", "last":
+		return true
+	}
+	return false
+}
+
+// bounds returns the inclusive time bounds of the statement (lo/hi valid when the has* flag is set).
+func (q Q) bounds() (lo, hi int64, hasLo, hasHi bool) {
+	tr := timeRanges[q.TR]
+	if q.TR == 3 {
+		if d, _ := q.interval(); d == 0 {
+			return 0, 0, false, false
 		}
-		rs, err := f.InfluxQL(b, q)
-		fmt.Printf("Q: %s\n  err=%v\n", q, err)
-		for _, r := range rs {
-			fmt.Printf("  stmt %d err=%q\n", r.StatementID, r.Err)
-			for _, row := range r.Rows {
-				fmt.Printf("   row name=%s tags=%v cols=%v partial=%v\n", row.Name, row.Tags, row.Columns, row.Partial)
-				for _, v := range row.Values {
-					s := ""
-					for _, x := range v {
-						if tm, ok := x.(time.Time); ok {
-							s += fmt.Sprintf(" %dm", (tm.UnixNano()-mini.Base)/M)
-						} else {
-							s += fmt.Sprintf(" %v(%T)", x, x)
+	}
+	lo, hi = B+tr.loMin*minute, B+tr.hiMin*minute
+	if tr.loExcl {
+		lo++
+	}
+	if !tr.hiIncl {
+		hi--
+	}
+	return lo, hi, tr.hasLo, tr.hasHi
+}
+
+func (q Q) String() string {
+	var sb strings.Builder
+	sb.WriteString("SELECT ")
+	switch q.Proj {
+	case "v":
+		sb.WriteString("v")
+	case "vw":
+		sb.WriteString("v, w")
+	default:
+		sb.WriteString(q.Proj + "(v)")
+	}
+	sb.WriteString(" FROM m")
+	var conds []string
+	if _, _, hasLo, hasHi := q.bounds(); hasLo || hasHi {
+		tr := timeRanges[q.TR]
+		op := ">="
+		if tr.loExcl {
+			op = ">"
+		}
+		conds = append(conds, fmt.Sprintf("time %s %d", op, B+tr.loMin*minute))
+		op = "<"
+		if tr.hiIncl {
+			op = "<="
+		}
+		conds = append(conds, fmt.Sprintf("time %s %d", op, B+tr.hiMin*minute))
+	}
+	switch q.Tag {
+	case 1:
+		conds = append(conds, "h = 'a'")
+	case 2:
+		conds = append(conds, "h != 'a'")
+	}
+	if q.Field {
+		conds = append(conds, "v > 1")
+	}
+	if len(conds) > 0 {
+		sb.WriteString(" WHERE " + strings.Join(conds, " AND "))
+	}
+	switch q.GB {
+	case 1:
+		sb.WriteString(" GROUP BY time(20m)")
+	case 2:
+		sb.WriteString(" GROUP BY time(30m, 10m)")
+	case 3:
+		sb.WriteString(" GROUP BY h")
+	case 4:
+		sb.WriteString(" GROUP BY time(20m), h")
+	}
+	if q.Fill != "" {
+		sb.WriteString(" fill(" + q.Fill + ")")
+	}
+	if q.Desc {
+		sb.WriteString(" ORDER BY time DESC")
+	}
+	if q.Limit > 0 {
+		fmt.Fprintf(&sb, " LIMIT %d", q.Limit)
+	}
+	if q.Offset > 0 {
+		fmt.Fprintf(&sb, " OFFSET %d", q.Offset)
+	}
+	if q.SLimit > 0 {
+		fmt.Fprintf(&sb, " SLIMIT %d", q.SLimit)
+	}
+	if q.SOffset > 0 {
+		fmt.Fprintf(&sb, " SOFFSET %d", q.SOffset)
+	}
+	return sb.String()
+}
+
+type lim struct{ l, o int }
+
+// queries enumerates the complete product of the slot alternatives of the tier, simplest first. The fill slot only
+// exists for statements with GROUP BY time (fill without an interval is not specified by the documentation); for raw
+// projections with GROUP BY time (which the compiler must reject) only fill absent is enumerated.
+func queries(thorough bool) []Q {
+	projs := []string{"v", "count", "mean", "max", "first", "vw"}
+	trs := []int{0, 1, 3}
+	tags := []int{0, 2}
+	fields := []bool{false, true}
+	gbs := []int{0, 2, 4}
+	fills := []string{"", "previous", "linear"}
+	lims := []lim{{0, 0}, {1, 1}}
+	slims := []lim{{0, 0}, {1, 1}}
+	if thorough {
+		projs = []string{"v", "count", "sum", "mean", "min", "max", "first", "last", "vw"}
+		trs = []int{0, 1, 2, 3, 4, 5}
+		tags = []int{0, 1, 2}
+		gbs = []int{0, 1, 2, 3, 4}
+		fills = []string{"", "null", "none", "0", "previous", "linear"}
+		lims = []lim{{0, 0}, {1, 0}, {1, 1}, {2, 1}}
+		slims = []lim{{0, 0}, {1, 0}, {1, 1}}
+	}
+	var out []Q
+	for _, sl := range slims {
+		for _, l := range lims {
+			for _, desc := range []bool{false, true} {
+				for _, gb := range gbs {
+					for _, proj := range projs {
+						for _, fill := range fills {
+							q0 := Q{Proj: proj, GB: gb, Fill: fill}
+							if d, _ := q0.interval(); fill != "" && (d == 0 || !q0.isAgg()) {
+								continue
+							}
+							for _, tr := range trs {
+								for _, tag := range tags {
+									for _, fld := range fields {
+										out = append(out, Q{Proj: proj, TR: tr, Tag: tag, Field: fld, GB: gb, Fill: fill, Desc: desc,
+											Limit: l.l, Offset: l.o, SLimit: sl.l, SOffset: sl.o})
+									}
+								}
+							}
 						}
 					}
-					fmt.Println("     ", s)
 				}
 			}
 		}
 	}
+	return out
+}
+
+// ---------------------------------------------------------------------------------------------------------
+// reference evaluator (from the InfluxQL documentation; no repo code)
+
+// xcell: the acceptable values of one cell (nil = null). xrow: acceptable time stamps + cells.
+type xcell []any
+type xrow struct {
+	times []int64
+	cells []xcell
+}
+
+// xseries: one expected output series. For raw projections `all` holds every row before LIMIT/OFFSET (time-ascending
+// or -descending, equal-time rows in arbitrary order) and the comparison applies offset/limit tie-tolerantly.
+type xseries struct {
+	tag  string // value of h when grouped by h, "" otherwise
+	rows []xrow // after LIMIT/OFFSET
+	all  []xrow // raw only: before LIMIT/OFFSET
+}
+
+type expectation struct {
+	errSub     string      // non-empty: the statement must be rejected with an error containing this text
+	cols       []string    // column names
+	byTag      bool        // series carry tag h
+	raw        bool        // tie-tolerant raw comparison
+	q          Q           // the statement (for limit/offset)
+	candidates [][]xseries // acceptable series lists
+	maxRows    int
+}
+
+type rrow struct {
+	h    string
+	t    int64
+	v, w any
+}
+
+func asF(v any) float64 {
+	switch x := v.(type) {
+	case float64:
+		return x
+	case int64:
+		return float64(x)
+	}
+	return math.NaN()
+}
+
+func floorDiv(a, b int64) int64 {
+	q := a / b
+	if (a%b != 0) && ((a < 0) != (b < 0)) {
+		q--
+	}
+	return q
+}
+
+// window returns the start of the GROUP BY time bucket containing t.
+func window(t, dur, off int64) int64 { return floorDiv(t-off, dur)*dur + off }
+
+func dedupe(c xcell) xcell {
+	var out xcell
+	for _, v := range c {
+		dup := false
+		for _, o := range out {
+			if o == v {
+				dup = true
+			}
+		}
+		if !dup {
+			out = append(out, v)
+		}
+	}
+	return out
+}
+
+// aggregate computes proj over a non-empty, time-ascending point list of one bucket/series (values of field v).
+// Returns the acceptable values and, for selectors, the acceptable point time stamps.
+func aggregate(proj string, intV bool, pts []rrow) (xcell, []int64) {
+	num := func(x float64) any {
+		if intV {
+			return int64(x)
+		}
+		return x
+	}
+	switch proj {
+	case "count":
+		return xcell{int64(len(pts))}, nil
+	case "sum", "mean":
+		s := 0.0
+		for _, p := range pts {
+			s += asF(p.v)
+		}
+		if proj == "sum" {
+			return xcell{num(s)}, nil
+		}
+		return xcell{s / float64(len(pts))}, nil
+	case "min", "max":
+		best := asF(pts[0].v)
+		for _, p := range pts {
+			x := asF(p.v)
+			if (proj == "min" && x < best) || (proj == "max" && x > best) {
+				best = x
+			}
+		}
+		var ts []int64
+		for _, p := range pts {
+			if asF(p.v) == best {
+				ts = append(ts, p.t)
+			}
+		}
+		return xcell{num(best)}, ts
+	case "first", "last":
+		t := pts[0].t
+		for _, p := range pts {
+			if (proj == "first" && p.t < t) || (proj == "last" && p.t > t) {
+				t = p.t
+			}
+		}
+		var c xcell
+		for _, p := range pts {
+			if p.t == t {
+				c = append(c, p.v)
+			}
+		}
+		return dedupe(c), []int64{t}
+	}
+	panic("unknown projection " + proj)
+}
+
+func applyLimit(rows []xrow, l, o int) []xrow {
+	if o >= len(rows) {
+		return nil
+	}
+	rows = rows[o:]
+	if l > 0 && l < len(rows) {
+		rows = rows[:l]
+	}
+	return rows
+}
+
+func sliceSeries(list []xseries, l, o int) []xseries {
+	if l == 0 && o == 0 {
+		return list
+	}
+	if o >= len(list) {
+		return nil
+	}
+	list = list[o:]
+	if l > 0 && l < len(list) {
+		list = list[:l]
+	}
+	return list
+}
+
+func reverse(list []xseries) []xseries {
+	out := make([]xseries, len(list))
+	for k := range list {
+		out[len(list)-1-k] = list[k]
+	}
+	return out
+}
+
+// reference evaluates q over ds. perShard=false is the oracle. perShard=true is a DIAGNOSIS model used only to label a
+// mismatch (never to accept a result): SLIMIT/SOFFSET applied inside every shard to that shard's own list of tag sets.
+func reference(ds Dataset, q Q, perShard bool) *expectation {
+	ex := &expectation{q: q, byTag: q.byTag(), raw: !q.isAgg()}
+	dur, off := q.interval()
+	if !q.isAgg() && dur != 0 {
+		ex.errSub = "GROUP BY requires at least one aggregate function"
+		return ex
+	}
+	switch q.Proj {
+	case "v":
+		ex.cols = []string{"time", "v"}
+	case "vw":
+		ex.cols = []string{"time", "v", "w"}
+	default:
+		ex.cols = []string{"time", q.Proj}
+	}
+	intV := ds.intV()
+	lo, hi, hasLo, hasHi := q.bounds()
+
+	// 1. WHERE: time, tag, field predicates. candidateTags = series of the measurement matching the tag predicate.
+	tagOK := func(h string) bool {
+		switch q.Tag {
+		case 1:
+			return h == "a"
+		case 2:
+			return h != "a"
+		}
+		return true
+	}
+	candTags := map[string]bool{}
+	var rows []rrow
+	for _, p := range ds.Pts {
+		if !tagOK(p.H) {
+			continue
+		}
+		candTags[p.H] = true
+		t := B + p.Min*minute
+		if (hasLo && t < lo) || (hasHi && t > hi) {
+			continue
+		}
+		if q.Field && !(p.V != nil && asF(p.V) > 1) {
+			continue
+		}
+		// projection: a point contributes when at least one selected field is present
+		if q.Proj == "vw" {
+			if p.V == nil && p.W == nil {
+				continue
+			}
+		} else if p.V == nil {
+			continue
+		}
+		rows = append(rows, rrow{p.H, t, p.V, p.W})
+	}
+	sort.SliceStable(rows, func(a, b int) bool { return rows[a].t < rows[b].t })
+
+	// 2. GROUP BY tag
+	groupOf := func(h string) string {
+		if q.byTag() {
+			return h
+		}
+		return ""
+	}
+	if perShard && (q.SLimit > 0 || q.SOffset > 0) {
+		shardOf := func(t int64) int64 { return floorDiv(t-B, 60*minute) }
+		inShard := map[int64]map[string]bool{}
+		for _, p := range ds.Pts {
+			if tagOK(p.H) {
+				s := shardOf(B + p.Min*minute)
+				if inShard[s] == nil {
+					inShard[s] = map[string]bool{}
+				}
+				inShard[s][groupOf(p.H)] = true
+			}
+		}
+		kept := map[int64]map[string]bool{}
+		for s, set := range inShard {
+			var l []xseries
+			for g := range set {
+				l = append(l, xseries{tag: g})
+			}
+			sort.Slice(l, func(a, b int) bool { return l[a].tag < l[b].tag })
+			kept[s] = map[string]bool{}
+			for _, x := range sliceSeries(l, q.SLimit, q.SOffset) {
+				kept[s][x.tag] = true
+			}
+		}
+		var nr []rrow
+		for _, r := range rows {
+			if kept[shardOf(r.t)][groupOf(r.h)] {
+				nr = append(nr, r)
+			}
+		}
+		rows = nr
+		q.SLimit, q.SOffset = 0, 0
+	}
+	groups := map[string][]rrow{}
+	for _, r := range rows {
+		groups[groupOf(r.h)] = append(groups[groupOf(r.h)], r)
+	}
+	candGroups := map[string]bool{}
+	for h := range candTags {
+		candGroups[groupOf(h)] = true
+	}
+	var names []string
+	for g := range candGroups {
+		names = append(names, g)
+	}
+	sort.Strings(names)
+
+	// 3. per series: rows before LIMIT
+	full := map[string][]xrow{}
+	for _, g := range names {
+		pts := groups[g]
+		if len(pts) == 0 {
+			continue // a series without data in range yields nothing, also with fill()
+		}
+		var out []xrow
+		switch {
+		case !q.isAgg():
+			for _, r := range pts {
+				row := xrow{times: []int64{r.t}, cells: []xcell{{r.v}}}
+				if q.Proj == "vw" {
+					row.cells = append(row.cells, xcell{r.w})
+				}
+				out = append(out, row)
+			}
+		case dur == 0:
+			vals, ts := aggregate(q.Proj, intV, pts)
+			if !q.isSelector() {
+				// an aggregate without GROUP BY time reports the lower bound of the time range, or epoch 0
+				ts = []int64{0}
+				if hasLo {
+					ts = []int64{lo}
+				}
+			}
+			out = []xrow{{times: ts, cells: []xcell{vals}}}
+		default:
+			out = bucketed(q, intV, pts, lo, hi, dur, off)
+		}
+		if q.Desc {
+			for a, b := 0, len(out)-1; a < b; a, b = a+1, b-1 {
+				out[a], out[b] = out[b], out[a]
+			}
+		}
+		full[g] = out
+	}
+
+	// 4. LIMIT/OFFSET per series, SLIMIT/SOFFSET over the series list.
+	mk := func(includeEmptyBefore, includeEmptyAfter bool) []xseries {
+		var list []xseries
+		for _, g := range names {
+			s := xseries{tag: g, all: full[g], rows: applyLimit(full[g], q.Limit, q.Offset)}
+			if len(s.all) == 0 && !includeEmptyBefore {
+				continue
+			}
+			if len(s.rows) == 0 && !includeEmptyAfter {
+				continue
+			}
+			list = append(list, s)
+		}
+		return list
+	}
+	strip := func(list []xseries) []xseries {
+		var out []xseries
+		for _, s := range list {
+			if len(s.rows) > 0 {
+				out = append(out, s)
+			}
+		}
+		return out
+	}
+	var lists [][]xseries
+	if q.SLimit == 0 && q.SOffset == 0 {
+		lists = [][]xseries{mk(false, false)}
+	} else {
+		// the documentation does not say whether SLIMIT counts series that match the tag predicate but contribute no row
+		lists = [][]xseries{mk(false, false), mk(false, true), mk(true, true)}
+	}
+	for _, l := range lists {
+		ex.candidates = append(ex.candidates, strip(sliceSeries(l, q.SLimit, q.SOffset)))
+		if q.Desc {
+			// series order under ORDER BY time DESC is not documented: ascending or descending tag order
+			ex.candidates = append(ex.candidates, strip(sliceSeries(reverse(l), q.SLimit, q.SOffset)))
+			ex.candidates = append(ex.candidates, reverse(strip(sliceSeries(l, q.SLimit, q.SOffset))))
+		}
+	}
+	for _, c := range ex.candidates {
+		n := 0
+		for _, s := range c {
+			n += len(s.rows)
+		}
+		if n > ex.maxRows {
+			ex.maxRows = n
+		}
+	}
+	return ex
+}
+
+// bucketed: GROUP BY time(dur, off) over the inclusive range [lo,hi] with the statement's fill option. Ascending.
+func bucketed(q Q, intV bool, pts []rrow, lo, hi, dur, off int64) []xrow {
+	byBucket := map[int64][]rrow{}
+	for _, p := range pts {
+		w := window(p.t, dur, off)
+		byBucket[w] = append(byBucket[w], p)
+	}
+	fill := q.Fill
+	if fill == "" {
+		fill = "null"
+	}
+	type bk struct {
+		t    int64
+		data bool
+		c    xcell
+	}
+	var bks []bk
+	for t := window(lo, dur, off); t <= window(hi, dur, off); t += dur {
+		b := bk{t: t}
+		if ps := byBucket[t]; len(ps) > 0 {
+			b.data = true
+			b.c, _ = aggregate(q.Proj, intV, ps)
+		}
+		bks = append(bks, b)
+	}
+	colInt := q.Proj == "count" || (intV && q.Proj != "mean")
+	var out []xrow
+	for k, b := range bks {
+		if b.data {
+			out = append(out, xrow{times: []int64{b.t}, cells: []xcell{b.c}})
+			continue
+		}
+		var c xcell
+		switch fill {
+		case "none":
+			continue
+		case "null":
+			c = xcell{nil}
+			if q.Proj == "count" {
+				c = xcell{int64(0)} // documented: count() reports 0 for intervals without data
+			}
+		case "0":
+			if colInt {
+				c = xcell{int64(0)}
+			} else {
+				c = xcell{float64(0)}
+			}
+		case "previous":
+			// value of the previous interval (data or itself filled = the nearest earlier interval with data), else null.
+			// Under ORDER BY time DESC the documentation does not say whether "previous" is chronological or in output
+			// order: accept both.
+			prev := xcell{nil}
+			for j := k - 1; j >= 0; j-- {
+				if bks[j].data {
+					prev = bks[j].c
+					break
+				}
+			}
+			c = append(c, prev...)
+			if q.Desc {
+				next := xcell{nil}
+				for j := k + 1; j < len(bks); j++ {
+					if bks[j].data {
+						next = bks[j].c
+						break
+					}
+				}
+				c = append(c, next...)
+			}
+		case "linear":
+			pj, nj := -1, -1
+			for j := k - 1; j >= 0; j-- {
+				if bks[j].data {
+					pj = j
+					break
+				}
+			}
+			for j := k + 1; j < len(bks); j++ {
+				if bks[j].data {
+					nj = j
+					break
+				}
+			}
+			if pj < 0 || nj < 0 {
+				c = xcell{nil}
+				break
+			}
+			for _, pv := range bks[pj].c {
+				for _, nv := range bks[nj].c {
+					x := asF(pv) + (asF(nv)-asF(pv))*float64(b.t-bks[pj].t)/float64(bks[nj].t-bks[pj].t)
+					if colInt {
+						// rounding of integer interpolation is not documented
+						c = append(c, int64(math.Floor(x)), int64(math.Ceil(x)))
+					} else {
+						c = append(c, x)
+					}
+				}
+			}
+		}
+		out = append(out, xrow{times: []int64{b.t}, cells: []xcell{dedupe(c)}})
+	}
+	return out
+}
+
+// ---------------------------------------------------------------------------------------------------------
+// comparison
+
+func cellEq(got any, want any) bool {
+	switch w := want.(type) {
+	case nil:
+		return got == nil
+	case int64:
+		g, ok := got.(int64)
+		return ok && g == w
+	case float64:
+		g, ok := got.(float64)
+		return ok && (g == w || math.Abs(g-w) <= 1e-9*math.Max(1, math.Abs(w)))
+	}
+	return false
+}
+
+func cellOK(got any, want xcell) bool {
+	for _, w := range want {
+		if cellEq(got, w) {
+			return true
+		}
+	}
+	return false
+}
+
+func timeOf(v any) (int64, bool) {
+	t, ok := v.(time.Time)
+	if !ok {
+		return 0, false
+	}
+	return t.UnixNano(), true
+}
+
+func rowOK(got []any, want xrow) bool {
+	if len(got) != len(want.cells)+1 {
+		return false
+	}
+	t, ok := timeOf(got[0])
+	if !ok {
+		return false
+	}
+	tok := false
+	for _, wt := range want.times {
+		tok = tok || wt == t
+	}
+	if !tok {
+		return false
+	}
+	for k, c := range want.cells {
+		if !cellOK(got[k+1], c) {
+			return false
+		}
+	}
+	return true
+}
+
+// seriesOK compares one returned series with one expected series; "" = equal, else the mismatch clause.
+func seriesOK(ex *expectation, got mini.Row, want xseries) string {
+	if got.Name != "m" {
+		return "series-name"
+	}
+	if ex.byTag {
+		if len(got.Tags) != 1 || got.Tags["h"] != want.tag {
+			return "series-tags"
+		}
+	} else if len(got.Tags) != 0 {
+		return "series-tags"
+	}
+	if strings.Join(got.Columns, ",") != strings.Join(ex.cols, ",") {
+		return "columns"
+	}
+	if len(got.Values) != len(want.rows) {
+		return "row-count"
+	}
+	if !ex.raw {
+		for k, r := range want.rows {
+			if !rowOK(got.Values[k], r) {
+				if t, ok := timeOf(got.Values[k][0]); ok && len(r.times) == 1 && t == r.times[0] {
+					return "row-value"
+				}
+				return "row-time"
+			}
+		}
+		return ""
+	}
+	// raw: the time stamps are determined; rows with equal time may come in any order and LIMIT/OFFSET may cut through
+	// such a run anywhere: every returned row must be matched by a distinct not-yet-used expected row of that time.
+	used := make([]bool, len(want.all))
+	for k, g := range got.Values {
+		t, ok := timeOf(g[0])
+		if !ok || t != want.rows[k].times[0] {
+			return "row-time"
+		}
+		found := false
+		for j, r := range want.all {
+			if !used[j] && rowOK(g, r) {
+				used[j], found = true, true
+				break
+			}
+		}
+		if !found {
+			return "row-value"
+		}
+	}
+	return ""
+}
+
+// judge returns "" when the result matches one acceptable series list, else the mismatch clause of the FIRST candidate
+// (the canonical reading) refined by a series-count class.
+func judge(ex *expectation, rs []mini.Result, err error) (clause string) {
+	if err != nil {
+		return "parse-error"
+	}
+	if len(rs) != 1 {
+		return "statement-count"
+	}
+	r := rs[0]
+	if ex.errSub != "" {
+		if r.Err == "" {
+			return "missing-error"
+		}
+		if !strings.Contains(r.Err, ex.errSub) {
+			return "other-error"
+		}
+		return ""
+	}
+	if r.Err != "" {
+		return "unexpected-error"
+	}
+	first := ""
+	for ci, cand := range ex.candidates {
+		cl := ""
+		if len(r.Rows) != len(cand) {
+			cl = "series-count-less"
+			if len(r.Rows) > len(cand) {
+				cl = "series-count-more"
+			}
+		} else {
+			for k := range cand {
+				if c := seriesOK(ex, r.Rows[k], cand[k]); c != "" {
+					cl = c
+					break
+				}
+			}
+		}
+		if cl == "" {
+			return ""
+		}
+		if ci == 0 {
+			first = cl
+		}
+	}
+	return first
+}
+
+// ---------------------------------------------------------------------------------------------------------
+// rendering (deterministic)
+
+func relMin(t int64) string {
+	d := t - B
+	if t == 0 {
+		return "epoch0"
+	}
+	if d%minute == 0 {
+		return fmt.Sprintf("%dm", d/minute)
+	}
+	return fmt.Sprintf("%dm%+dns", floorDiv(d, minute), d-floorDiv(d, minute)*minute)
+}
+
+func fmtVal(v any) string {
+	switch x := v.(type) {
+	case nil:
+		return "null"
+	case time.Time:
+		return relMin(x.UnixNano())
+	case float64:
+		return fmt.Sprintf("%gf", x)
+	case int64:
+		return fmt.Sprintf("%di", x)
+	}
+	return fmt.Sprintf("%v(%T)", v, v)
+}
+
+func fmtGot(ex *expectation, rs []mini.Result) string {
+	var sb strings.Builder
+	for _, r := range rs {
+		if r.Err != "" {
+			fmt.Fprintf(&sb, "  error: %s\n", r.Err)
+		}
+		for _, row := range r.Rows {
+			fmt.Fprintf(&sb, "  series %s tags{h=%q present=%v} cols=%v:", row.Name, row.Tags["h"], len(row.Tags) > 0, row.Columns)
+			lines := make([]string, len(row.Values))
+			for k, v := range row.Values {
+				var cs []string
+				for _, x := range v {
+					cs = append(cs, fmtVal(x))
+				}
+				lines[k] = "[" + strings.Join(cs, " ") + "]"
+			}
+			if ex.raw {
+				// the order of equal-time rows is not judged and may vary from run to run: print them sorted
+				lines = sortEqualTimeRuns(row.Values, lines)
+			}
+			sb.WriteString(" " + strings.Join(lines, " ") + "\n")
+		}
+		if len(r.Rows) == 0 && r.Err == "" {
+			sb.WriteString("  (no series)\n")
+		}
+	}
+	return sb.String()
+}
+
+func sortEqualTimeRuns(vals [][]any, lines []string) []string {
+	out := append([]string(nil), lines...)
+	for a := 0; a < len(vals); {
+		b := a + 1
+		ta, _ := timeOf(vals[a][0])
+		for b < len(vals) {
+			tb, _ := timeOf(vals[b][0])
+			if tb != ta {
+				break
+			}
+			b++
+		}
+		sort.Strings(out[a:b])
+		a = b
+	}
+	return out
+}
+
+func fmtCell(c xcell) string {
+	var s []string
+	for _, v := range c {
+		s = append(s, fmtVal(v))
+	}
+	return strings.Join(s, "|")
+}
+
+func fmtWant(ex *expectation) string {
+	if ex.errSub != "" {
+		return fmt.Sprintf("  error containing %q\n", ex.errSub)
+	}
+	var sb strings.Builder
+	seen := map[string]bool{}
+	n := 0
+	for _, cand := range ex.candidates {
+		var cb strings.Builder
+		for _, s := range cand {
+			fmt.Fprintf(&cb, "  series m tags{h=%q present=%v} cols=%v:", s.tag, ex.byTag, ex.cols)
+			for _, r := range s.rows {
+				var ts []string
+				for _, t := range r.times {
+					ts = append(ts, relMin(t))
+				}
+				cs := []string{strings.Join(ts, "|")}
+				for _, c := range r.cells {
+					cs = append(cs, fmtCell(c))
+				}
+				cb.WriteString(" [" + strings.Join(cs, " ") + "]")
+			}
+			cb.WriteString("\n")
+		}
+		if len(cand) == 0 {
+			cb.WriteString("  (no series)\n")
+		}
+		if seen[cb.String()] {
+			continue
+		}
+		seen[cb.String()] = true
+		if n > 0 {
+			sb.WriteString(" or\n")
+		}
+		n++
+		sb.WriteString(cb.String())
+	}
+	if ex.raw && (ex.q.Limit > 0 || ex.q.Offset > 0) {
+		sb.WriteString("  (raw result: rows of equal time may appear in any order, LIMIT/OFFSET may cut such a run anywhere)\n")
+	}
+	return sb.String()
+}
+
+func fmtDataset(ds Dataset) string {
+	var sb strings.Builder
+	fmt.Fprintf(&sb, "dataset %s (layout %s), measurement m, shard groups [0m,60m) [60m,120m):\n", ds.Name, ds.Layout)
+	for _, p := range ds.Pts {
+		fmt.Fprintf(&sb, "  h=%s t=%dm v=%s w=%s\n", p.H, p.Min, fmtVal(p.V), fmtVal(p.W))
+	}
+	return sb.String()
+}
+
+// ---------------------------------------------------------------------------------------------------------
+// signatures and outcome classes
+
+func projKind(q Q) string {
+	switch {
+	case !q.isAgg():
+		return "raw"
+	case q.isSelector():
+		return "selector"
+	}
+	return "aggregate"
+}
+
+func sigOf(q Q, clause string) string {
+	gb := []string{"none", "time", "time", "tag", "time+tag"}[q.GB]
+	parts := []string{"SELECT", clause, projKind(q), "groupby=" + gb}
+	if d, _ := q.interval(); d != 0 && q.isAgg() {
+		fl := q.Fill
+		if fl == "" {
+			fl = "null"
+		}
+		parts = append(parts, "fill="+fl)
+	}
+	if q.Desc {
+		parts = append(parts, "desc")
+	}
+	if q.Limit > 0 || q.Offset > 0 {
+		parts = append(parts, "limit")
+	}
+	if q.SLimit > 0 || q.SOffset > 0 {
+		parts = append(parts, "slimit")
+	}
+	return vlib.JoinSig(parts...)
+}
+
+// diagnose turns a mismatch clause into the class signature. A mismatch of a statement with SLIMIT/SOFFSET whose result
+// equals what "SLIMIT/SOFFSET applied per shard" predicts is put into one class per grouping.
+func diagnose(ds Dataset, q Q, clause string, rs []mini.Result, err error) string {
+	if q.SLimit > 0 || q.SOffset > 0 {
+		if judge(reference(ds, q, true), rs, err) == "" {
+			gb := []string{"none", "time", "time", "tag", "time+tag"}[q.GB]
+			return vlib.JoinSig("SELECT", "slimit-applied-per-shard", "groupby="+gb)
+		}
+	}
+	return sigOf(q, clause)
+}
+
+func rowClass(n int) string {
+	switch {
+	case n == 0:
+		return "0"
+	case n == 1:
+		return "1"
+	case n <= 4:
+		return "2-4"
+	case n <= 12:
+		return "5-12"
+	}
+	return "13+"
+}
+
+type Case struct {
+	DS int `json:"dataset"`
+	Q  Q   `json:"query"`
+}
+
+func run(fx *mini.Fixture, b mini.Bucket, q Q) (rs []mini.Result, err error, panicked string) {
+	p, d := vlib.Guard(func() { rs, err = fx.InfluxQL(b, q.String()) })
+	if p {
+		panicked = d
+	}
+	return
+}
+
+func TestCheck(t *testing.T) {
+	vlib.Main(t, &vlib.Check{
+		ID: "C22", Level: "exploration",
+		Rule: "datasets × statements, COMPLETE product of a template grammar (no sampling). Statement = SELECT <proj> FROM m [WHERE <time> AND <tag> AND <field>] [GROUP BY <gb>] [fill(<f>)] [ORDER BY time DESC] [LIMIT/OFFSET] [SLIMIT/SOFFSET]. " +
+			"thorough: proj ∈ {v; count,sum,mean,min,max,first,last (v); v,w} × time ∈ {[0m,120m), [15m,80m], (20m,70m), none (for GROUP BY time statements: [-30m,150m)), [60m,120m), [25m,35m)} × tag ∈ {none, h='a', h!='a'} × field ∈ {none, v>1} × gb ∈ {none, time(20m), time(30m,10m), h, time(20m)+h} × fill ∈ {absent,null,none,0,previous,linear} (only with an aggregate and GROUP BY time; raw projections with GROUP BY time are enumerated once and must be rejected) × order ∈ {asc,desc} × limit ∈ {none, 1, (1,1), (2,1)} × slimit ∈ {none, 1, (1,1)} = 129 600 statements × 5 datasets (D0 two dense float series with identical time stamps, cache; D1 integer v with gaps/off-grid times/a w-only point, TSM; D2 three float series: h=a only in shard 1, h=b only in shard 2, h=c in both, TSM+cache; D3 integer v with several points per bucket and equal values/time stamps within and across series, two TSM files; D4 float v at off-grid times, every point first written with an old value into TSM and then overwritten (second TSM file / cache)); every dataset spans two 1h shard groups. " +
+			"quick: the same grammar with fewer alternatives per slot (proj {v,count,mean,max,first,v+w} × 3 time × 2 tag × 2 field × gb {none,time(30m,10m),time(20m)+h} × fill {absent,previous,linear} × 2 order × limit {none,(1,1)} × slimit {none,(1,1)} = 3 264 statements) × 5 datasets. " +
+			"Oracle: reference evaluator written from the InfluxQL documentation (see file header). non-trivial = statements for which the reference expects ≥ 1 row (distinct by construction).",
+		Assumptions: []string{
+			"documentation silent ⇒ accepted: order of equal-time rows in a merged raw result (and which of them LIMIT/OFFSET keeps); which equal-time point first()/last() reports; which equal-valued point's time min()/max() report without GROUP BY time; fill(previous) under ORDER BY time DESC may take the chronologically previous or the previously emitted (= later) interval; fill(linear) on integer columns may round either way; series order under ORDER BY time DESC (ascending or descending tags); SLIMIT/SOFFSET may count all series matching the tag predicate, those with rows before LIMIT/OFFSET, or those with rows after it",
+			"documented and demanded: count() reports 0 (not null) for empty intervals unless a fill option replaces it; an aggregate without GROUP BY time is stamped with the lower time bound (epoch 0 if none), a selector with its point's time; GROUP BY time buckets are aligned to epoch + offset and cover the whole WHERE range (first bucket may start before the lower bound); fill applies only to series that have ≥ 1 point in range; LIMIT/OFFSET apply per series after fill and ordering; result value types: count integer, mean float, others the field's type; raw projection with GROUP BY time is rejected",
+			"GROUP BY time statements always carry both time bounds (without an upper bound the range ends at now(); without a lower bound the first bucket is undocumented); fill() is only enumerated with GROUP BY time",
+			"float data are multiples of 0.25 so that sums are exact in any order; means and interpolations are compared with relative tolerance 1e-9",
+			"background compaction off (mini fixture); layouts cache / TSM / TSM+cache / two TSM files / overwritten-in-TSM-and-cache are fixed per dataset",
+		},
+		QuickBudgetS: 60, ThoroughBudgetS: 800,
+		Run: func(c *vlib.Ctx) {
+			qs := queries(c.Thorough())
+			c.Note("statements_per_dataset", fmt.Sprint(len(qs)))
+			c.Note("datasets_total", fmt.Sprint(len(datasets)))
+			// Partition: the global case index (dataset-major) is cut into NShards contiguous blocks, so that a worker
+			// builds only the one or two datasets its block touches (a dataset costs as much as ~200 statements).
+			total := int64(len(datasets)) * int64(len(qs))
+			mine := func(g int64) bool { return int(g*int64(c.NShards)/total) == c.Shard }
+			for di, ds := range datasets {
+				base := int64(di) * int64(len(qs))
+				sFirst, sLast := int(base*int64(c.NShards)/total), int((base+int64(len(qs))-1)*int64(c.NShards)/total)
+				if c.Shard < sFirst || c.Shard > sLast {
+					continue // no case of this dataset belongs to this shard (the block map is monotone)
+				}
+				fx, b, err := load(ds)
+				if err != nil {
+					c.HarnessError(fmt.Sprintf("dataset %s: %v", ds.Name, err))
+					continue
+				}
+				for qi, q := range qs {
+					if !mine(base + int64(qi)) {
+						continue
+					}
+					if qi%256 == 0 && c.Expired() {
+						c.Cap(fmt.Sprintf("wall budget: a worker stopped inside its contiguous block of (dataset, statement) cases, in dataset %d of %d", di+1, len(datasets)))
+						fx.Close()
+						return
+					}
+					ex := reference(ds, q, false)
+					rs, err, pan := run(fx, b, q)
+					c.Eval(1)
+					cs := Case{di, q}
+					if pan != "" {
+						fr := pan[strings.LastIndex(pan, "@ ")+2:]
+						c.Violation(sigOf(q, "panic/"+fr), fmt.Sprintf("%s on %s: %s", q, ds.Name, pan), cs)
+						c.Outcome("panic")
+						continue
+					}
+					if ex.maxRows > 0 {
+						c.NontrivialN(1)
+					}
+					nser, nrows, filled := 0, 0, false
+					if len(rs) == 1 {
+						nser = len(rs[0].Rows)
+						for _, r := range rs[0].Rows {
+							nrows += len(r.Values)
+							for _, v := range r.Values {
+								for _, x := range v[1:] {
+									filled = filled || x == nil
+								}
+							}
+						}
+					}
+					if ex.errSub != "" {
+						c.Outcome("rejected-by-compiler")
+					} else {
+						c.Outcome(fmt.Sprintf("%s/series=%d/rows=%s/nulls=%v", projKind(q), min(nser, 3), rowClass(nrows), filled))
+					}
+					if cl := judge(ex, rs, err); cl != "" {
+						c.Violation(diagnose(ds, q, cl, rs, err), fmt.Sprintf("%s on %s: got\n%swant\n%s", q, ds.Name, fmtGot(ex, rs), fmtWant(ex)), cs)
+					}
+					if c.WantSample() && ex.maxRows >= 3 && q.GB == 4 && q.Limit > 0 && q.Field {
+						c.Sample(map[string]any{"dataset": ds.Name, "statement": q.String(), "returned": fmtGot(ex, rs)})
+					}
+				}
+				fx.Close()
+			}
+		},
+		Replay: func(c *vlib.Ctx, raw json.RawMessage) (bool, string) {
+			var cs Case
+			if err := json.Unmarshal(raw, &cs); err != nil {
+				return false, err.Error()
+			}
+			if cs.DS < 0 || cs.DS >= len(datasets) {
+				return false, "bad dataset index"
+			}
+			ds := datasets[cs.DS]
+			fx, b, err := load(ds)
+			if err != nil {
+				return false, "fixture: " + err.Error()
+			}
+			defer fx.Close()
+			ex := reference(ds, cs.Q, false)
+			rs, err, pan := run(fx, b, cs.Q)
+			var sb strings.Builder
+			fmt.Fprintf(&sb, "statement: %s\n%s", cs.Q, fmtDataset(ds))
+			if pan != "" {
+				fmt.Fprintf(&sb, "PANIC: %s\n", pan)
+				return true, sb.String()
+			}
+			if err != nil {
+				fmt.Fprintf(&sb, "parse error: %v\n", err)
+			}
+			cl := judge(ex, rs, err)
+			fmt.Fprintf(&sb, "returned:\n%sreference evaluator accepts:\n%s", fmtGot(ex, rs), fmtWant(ex))
+			if cl != "" {
+				fmt.Fprintf(&sb, "VIOLATED: %s\n", diagnose(ds, cs.Q, cl, rs, err))
+			}
+			return cl != "", sb.String()
+		},
+	})
 }
